@@ -356,7 +356,25 @@ func c20Stacks(r *tr.Run, c *Ctx) int {
 					m.SetContext(context.WithValue(context.Background(), c20CtxKey{}, i)) // every message travels with its OWN context
 					msgs = append(msgs, m)
 				}
+				observed := func() int { // Publish calls the registry has seen so far
+					total := 0
+					mfs, _ := reg.Gather()
+					for _, mf := range mfs {
+						if mf.GetName() == "publish_time_seconds" {
+							for _, m := range mf.GetMetric() {
+								total += int(m.GetHistogram().GetSampleCount())
+							}
+						}
+					}
+					return total
+				}
+				before := observed()
 				err := pub.Publish("topic", msgs...)
+				counted := observed() - before
+				hasMetrics := false
+				for _, k := range st {
+					hasMetrics = hasMetrics || k == "metrics"
+				}
 				calls := ip.Calls()
 				order := len(calls) == 1 && len(calls[0].Msgs) == nmsg
 				if order {
@@ -373,7 +391,8 @@ func c20Stacks(r *tr.Run, c *Ctx) int {
 					}
 				}
 				_ = pub.Close()
-				r.Emit("pubstack", "stack", st, "depth", len(st), "n", nmsg, "inner", inner, "err", err != nil, "calls", len(calls), "order", order, "applied", ok, "closes", ip.CloseCalls())
+				r.Emit("pubstack", "stack", st, "depth", len(st), "n", nmsg, "inner", inner, "err", err != nil, "calls", len(calls), "order", order, "applied", ok, "closes", ip.CloseCalls(),
+					"counted", counted, "hasmetrics", hasMetrics)
 				n++
 			}
 		}
@@ -494,6 +513,17 @@ func c20Stacks(r *tr.Run, c *Ctx) int {
 			if !WaitOrHang(closed) {
 				r.Emit("hung", "what", "decorated subscriber Close")
 			}
+			wantCloses := 1
+			if nmsg == 3 {
+				// Close once more (a retry, a second owner): that call passes through like the first
+				wantCloses = 2
+				is.OnCloseStart = nil
+				closed2 := make(chan struct{})
+				go func() { defer close(closed2); _ = sub.Close() }()
+				if !WaitOrHang(closed2) {
+					r.Emit("hung", "what", "second Close of the decorated subscriber")
+				}
+			}
 			cancel()
 			ok = true
 			for _, m := range inner {
@@ -504,7 +534,7 @@ func c20Stacks(r *tr.Run, c *Ctx) int {
 					ok = false
 				}
 			}
-			r.Emit("substack", "stack", st, "depth", len(st), "n", nmsg+nlate, "received", received, "order", order, "applied", ok, "settles", settles, "closes", is.CloseCalls())
+			r.Emit("substack", "stack", st, "depth", len(st), "n", nmsg+nlate, "received", received, "order", order, "applied", ok, "settles", settles, "closes", is.CloseCalls(), "wantcloses", wantCloses)
 			n++
 		}
 	}
